@@ -53,6 +53,24 @@ CLAIMED = {
                  "125/65535 thresholds, 126/127 markers and big-endian lengths, close frame bytes. Does not decide SHA1Update/Final padding logic nor digest equality for all inputs.",
          "note": STD_NOTE + " Reference models: RFC 6455 section 1.3/5.2, RFC 4648 table 1, FIPS 180-4 section 4.1.1/4.2.1/6.1.",
          "technique": "static analysis: constant and expression-template matching on the AST, exhaustive evaluation of pure index expressions (K6), constant propagation for header positions"},
+ "C14": {"level": "other",
+         "text": "All-or-nothing on allocation-failure paths, for every syntactic path of every function in buffer.c: the allocation-fallible functions are inferred by "
+                 "fixpoint from the allocator roots; at each of their ~45 call sites the result must be tested or returned (K12), no content-visible commit (total_len, "
+                 "callback counters, a live chain's off, or a committing callee) may be able to execute before a call whose failure edge returns a failure value (K5), and "
+                 "failure edges must return failure values; void helpers must not swallow failures after committing. Found and repaired three genuine defects "
+                 "(evbuffer_prepend partial copy, evbuffer_remove_buffer ignored results, multicast allocation failure reported as success), each replayed under ASan. "
+                 "Does not decide 'no inconsistency later' nor non-allocation failures.",
+         "note": STD_NOTE + " Path-insensitive except constant propagation along failure edges and one guard-contradiction pruning; benign pre-effects are a frozen, "
+                 "reasoned list (e.g. inserting an empty chain).",
+         "technique": "static analysis: failure-edge inference + effect ordering on the CFG (K5 atomicity, K12 error propagation)"},
+ "C15": {"level": "other",
+         "text": "Cleanup slots: exactly one invocation site each, dominated by 'last reference dropped' (and not pinned) and followed by the owner's release on every path. "
+                 "Immutability: each of the 17 in-place write sites into chain memory must carry a recognised justification (fresh chain, EVBUFFER_IMMUTABLE==0 test or "
+                 "CHAIN_SPACE_LEN test of the same chain dominating it, length taken from CHAIN_SPACE_LEN, value guard, writable-space provider, justified helper call sites); "
+                 "a buffer_len test alone is rejected. Ownership: a chain pointer field released while the evbuffer lives must be overwritten before use. Found and repaired "
+                 "two genuine defects (pullup writing shared multicast memory; use-after-free/double free in evbuffer_add_buffer_reference). Byte equality through read paths is declined.",
+         "note": STD_NOTE + " Assumes EVBUFFER_IMMUTABLE marks every shared/unowned chain.",
+         "technique": "static analysis: who-may-call + dominance (K2/K3), dominating-guard justification of write sites (K4), release/overwrite typestate of an owning field (K11)"},
 }
 
 NOT_APPLICABLE = {
